@@ -384,8 +384,8 @@ func filterVariants(attr string, position bool) func(Shape, bool) []Params {
 			return []Params{{Attr: attr, Mode: "lt", F: 0.5}, {Attr: attr, Mode: "all"}, {Attr: attr, Mode: "none"}, {Attr: attr, Mode: "lt", F: 1.5}}
 		}
 		out := []Params{{Attr: attr, Mode: "mask", Mask: 0b0101}, {Attr: attr, Mode: "all"}, {Attr: attr, Mode: "none"}}
-		if s.positionVariant() {
-			return out
+		if s.positionVariant() || s.L > 10 {
+			return out // (size-ladder meshes: the three default predicates only)
 		}
 		n := 1 << uint(s.L)
 		if s.Topo == "tri" && !thorough && n > 8 {
@@ -581,6 +581,15 @@ func splitVariants(s Shape, thorough bool) []Params {
 	out = append(out, Params{Mats: []int{p - p/2, p / 2}, MatIDs: []int{0, 1}})
 	if s.positionVariant() {
 		return out
+	}
+	if p > 12 {
+		// size-ladder meshes: a handful of layouts instead of every composition — three ranges with a
+		// material that returns, an empty middle range, one range, a same-named different material
+		return append(out,
+			Params{Mats: []int{p / 3, p / 3, p - 2*(p/3)}, MatIDs: []int{0, 1, 0}},
+			Params{Mats: []int{p / 2, 0, p - p/2}, MatIDs: []int{1, 0, 1}},
+			Params{Mats: []int{p}, MatIDs: []int{1}},
+			Params{Mats: []int{1, p - 2, 1}, MatIDs: []int{0, 3, 1}})
 	}
 	for k := 1; k <= 3; k++ {
 		for _, counts := range compositions(p, k) {
@@ -1041,3 +1050,31 @@ func IndexClass(idx []int, l int) string {
 
 // SpecClass renders the input class of a spec.
 func SpecClass(s meshlib.Spec) string { return ShapeOfSpec(s).Class() }
+
+// LadderSpecs (size ladder of C02 and C03): for a primitive count n, a welded strip in a non-identity index order with two
+// material ranges, the same strip with all vertices on the three palette positions (welding merges
+// them into three classes), an unwelded soup, and a point cloud in reverse index order.
+func LadderSpecs(n int) []meshlib.Spec {
+	strip := make([]int, 0, 3*n)
+	for f := 0; f < n; f++ {
+		strip = append(strip, f+2, f, f+1)
+	}
+	pal := make([]int, n+2)
+	for i := range pal {
+		pal[i] = (i*i + i/3) % 3
+	}
+	soup := make([]int, 3*n)
+	for i := range soup {
+		soup[i] = i
+	}
+	rev := make([]int, n)
+	for i := range rev {
+		rev[i] = n - 1 - i
+	}
+	return []meshlib.Spec{
+		{Topo: "tri", V: n + 2, Idx: strip, Mix: "all", Mats: []int{n / 3, n - n/3}},
+		{Topo: "tri", V: n + 2, Idx: strip, Mix: "P", Pos: pal},
+		{Topo: "tri", V: 3 * n, Idx: soup, Mix: "PN"},
+		{Topo: "point", V: n, Idx: rev, Mix: "all"},
+	}
+}
